@@ -13,7 +13,8 @@ META = {
                    "and no standard entry is missing, is_valid == to_id().is_some(). Ord::cmp is decided by finite case analysis over "
                    "(recognised?, recognised?, band ordering): (Some,Some) -> position order, unrecognised after recognised, otherwise "
                    "lexicographic (band, attribute): that is key(a).cmp(key(b)) for key = (0,id) | (1,band,attr), a total order, consistent "
-                   "with derived Eq by injectivity; partial_cmp == Some(cmp).",
+                   "with derived Eq by injectivity; partial_cmp == Some(cmp). "
+                   "Y-sem (ordsem.py) decides cmp first by evaluating its body once per consistent combination of (recognised?, recognised?, order of positions, of bands, of attributes) - 42 runs - with the parts of the descriptors as opaque symbols that can only be widened or compared, so the way the comparison is written (tuple match, rank numbers, then_with chains) does not matter; where a run leaves that subset the case analysis described above is the judge.",
     "assumptions": [],
 }
 
